@@ -413,7 +413,7 @@ def gen_adapt_all_np(rng, tier, np):
         if rng.random() < 0.4:
             op += ' native=1'
         if rng.random() < 0.5:
-            op += ' chunk=%d' % rng.choice([32, 64, 100, 4096])
+            op += ' chunk=%d' % rng.choice([64, 100, 4096])   # >= 56: the metric gather has 7-double records (smaller => chunk 0, see chunk_positive)
         ops.append(op)
     return ops
 
